@@ -66,6 +66,10 @@ def gen_cases(tier, seed):
             add(variant, 'tm', s2, order, cost=20 + 40 * order)
         add(variant, 'sum_ev', '', 1, cost=60)
         add(variant, 'sum_tm', '', 2, cost=100)
+        if variant != 'ea':
+            # ADC(n) sum for a two-particle operator (the rank is forwarded to
+            # every block)
+            add(variant, 'sum_ev', '', 1, n_particles=2, cost=120, dims=[2, 2])
     # ground state with free first-order singles (first_order_singles=True)
     for variant in ('pp', 'ip'):
         s1, s2 = spaces_upto(variant, 2)
